@@ -1,5 +1,6 @@
 import Ekit.Props.C04
 open Ekit.Lists
+#print axioms c04_calCapacity_matches_source
 #print axioms c04_arrayList_step_refines
 #print axioms c04_arrayList_run_refines
 #print axioms c04_arrayList_no_panic
